@@ -702,6 +702,12 @@ fn circular_arc_properties(a: Pos, b: Pos, c: Pos) -> Option<CircularArcProperti
 
     // * See: https://en.wikipedia.org/wiki/Circumscribed_circle#Cartesian_coordinates_2
     let d = 2.0 * (a.x * (b - c).y + b.x * (c - a).y + c.x * (a - b).y);
+
+    // The denominator is the quantity tested above evaluated in a different
+    // order, so it may still cancel to zero, in which case there is no centre.
+    if d == 0.0 {
+        return None;
+    }
     let a_sq = a.length_squared();
     let b_sq = b.length_squared();
     let c_sq = c.length_squared();
